@@ -144,7 +144,7 @@ def check(repo: Repo, run: Run) -> None:
     shared = set()
     ii_names = {x.attr for x in _ast.walk(cp.methods["insert_image"]) if isinstance(x, _ast.Attribute)} if "insert_image" in cp.methods else set()
     for w_ in sorted(set(writers) - part_of_insert):
-        if w_.startswith("_") and not w_.startswith("__") and w_ in ii_names:
+        if not w_.startswith("__") and w_ in ii_names:
             shared.add(w_)
     if shared and set(writers) <= part_of_insert | shared and not pkrec_writers:
         run.floor_failures.append(f"C15/R1: the image lists are written by {sorted(shared)}, a helper of insert_image that other "
